@@ -324,7 +324,7 @@ fn eval_core(rules: &[RuleSpec], peer: IpAddr, random: Option<&[u8]>) -> Result<
     Ok(vh::evaluate_connection_rules(&w.ctx, Some(peer), random).is_ok())
 }
 
-fn toml_quote(s: &str) -> String {
+pub fn toml_quote(s: &str) -> String {
     format!("\"{}\"", s.replace('\\', "\\\\").replace('"', "\\\""))
 }
 
